@@ -23,6 +23,9 @@ type C10Case struct {
 	Pos      int          `json:"pos"`    // readfail/stop/servectx: request envelopes delivered before the ending; writefail: index of the failing response write
 	Ser      bool         `json:"ser"`
 	Tape     []byte       `json:"tape"`
+	// Orphan: the caller also sends a body for a stream id it never opened (the server answers with a reset,
+	// which has to get past whatever the connection's writer is parked on)
+	Orphan bool `json:"orphan,omitempty"`
 }
 
 var c10Unary = []string{"ugate", "uctx", "uquick"}
@@ -44,6 +47,7 @@ func genC10(t *rapid.T) C10Case {
 	c.Ending = rapid.SampledFrom([]string{"readfail", "writefail", "stop"}).Draw(t, "ending")
 	c.Pos = rapid.IntRange(0, 2*(nu+ns)+2).Draw(t, "pos")
 	c.Tape = rapid.SliceOfN(rapid.Byte(), 0, 16).Draw(t, "tape")
+	c.Orphan = rapid.IntRange(0, 2).Draw(t, "orphan") == 0
 	return c
 }
 
@@ -165,6 +169,13 @@ func execC10(t *testing.T, c C10Case) (v Verdict) {
 				})
 			}
 		}
+		svc.Stream("orphan", true, true, func(s grpcServerStream) error { return nil })
+		// a stream (not a unary call: all eight unary workers may be taken by handlers that ignore their context)
+		svc.Stream("orphanq", true, true, func(s grpcServerStream) error {
+			_ = kit.SendBytes(s, []byte("busy"))
+			<-s.Context().Done()
+			return nil
+		})
 		w := kit.NewWorld(kit.Topo{Kind: "direct", Serialize: c.Ser, Clients: 1, Raw: true}, svc, nil, nil)
 		l := w.Links[0]
 		sched.AddLink(l)
@@ -202,14 +213,45 @@ func execC10(t *testing.T, c C10Case) (v Verdict) {
 			delivered++
 		}
 		kit.Settle()
+		if c.Orphan {
+			// Just before the ending: every further response write parks (slow transport), a quick unary
+			// request is answered (its reply parks the connection's writer), and then a body arrives for a
+			// stream id that was never opened - the read loop now has a reset to get past the busy writer.
+			l.A.Delay(nil)
+			for l.ReleaseNext(kit.AtoB) {
+			}
+			kit.Settle()
+			l.B.Hold(func(*kit.Rpc) bool { return true })
+			q := kit.EnvSpec{Body: &body, Wrap: true}
+			open := kit.EnvSpec{}
+			_ = l.A.Write(context.Background(), open.Build(9001, kit.FullMethod("orphanq"), "c0", kit.ServerName))
+			kit.Settle()
+			_ = l.A.Write(context.Background(), q.Build(9000, kit.FullMethod("orphan"), "c0", kit.ServerName))
+			kit.Settle()
+		}
 		switch c.Ending {
 		case "readfail":
 			l.B.FailReads(nil)
+			kit.Settle()
+			// a connection whose reads fail does not keep a write parked for ever either: the parked write
+			// (if any) now fails too. Without this the read loop may legitimately sit behind the writer
+			// (queueing a reset for the orphan body) and never get to see the read failure.
+			l.B.FailWrites(nil)
+			for _, h := range l.Held() {
+				h.Release()
+			}
 		case "stop":
 			w.Server.Stop()
 		case "servectx":
 			w.CancelServeCtx()
 		case "writefail":
+			if c.Orphan {
+				l.B.FailWrites(nil)
+				for _, h := range l.Held() {
+					h.Release()
+				}
+				kit.Settle()
+			}
 			done, _ := w.ServeResult("c0")
 			writeFailHit = done
 			if !done {
@@ -296,7 +338,7 @@ func execC10(t *testing.T, c C10Case) (v Verdict) {
 	if len(res.Leaked) > 0 && v.Fail == "" {
 		v.failf("goroutines left after the connection ended and all handlers returned: %s", strings.Join(kit.StackSites(res.Leaked), " ;; "))
 	}
-	labels := []string{"ending=" + c.Ending, fmt.Sprintf("unary_in_flight=%d", min(nuIn, 3)), fmt.Sprintf("streams_in_flight=%d", min(nsIn, 3))}
+	labels := []string{"ending=" + c.Ending, fmt.Sprintf("unary_in_flight=%d", min(nuIn, 3)), fmt.Sprintf("streams_in_flight=%d", min(nsIn, 3)), fmt.Sprintf("orphan=%v", c.Orphan)}
 	if c.Ending == "writefail" {
 		labels = append(labels, fmt.Sprintf("writefail_hit=%v", writeFailHit))
 	}
